@@ -95,9 +95,9 @@ func (self *BinaryConv) doRecurse(ctx context.Context, s string, jp int, desc *t
 		case types.V_STRING:
 			var str string
 			if v.Ep >= 0 && v.Ep < int64(ret) {
-				str, err = strconv.Unquote(s[v.Iv-1 : ret])
-				if err != nil {
-					return
+				var ok bool
+				if str, ok = json.Unquote(s[v.Iv-1 : ret]); !ok {
+					return ret, errSyntax(s, int(v.Ep))
 				}
 			} else {
 				str = s[v.Iv : ret-1]
@@ -192,9 +192,9 @@ func (self *BinaryConv) doRecurse(ctx context.Context, s string, jp int, desc *t
 
 					var key string
 					if v.Ep >= 0 && v.Ep < int64(ret) {
-						key, err = strconv.Unquote(s[v.Iv-1 : ret])
-						if err != nil {
-							return
+						var ok bool
+						if key, ok = json.Unquote(s[v.Iv-1 : ret]); !ok {
+							return ret, errSyntax(s, int(v.Ep))
 						}
 					} else {
 						key = s[v.Iv : ret-1]
@@ -273,9 +273,9 @@ func (self *BinaryConv) doRecurse(ctx context.Context, s string, jp int, desc *t
 
 					var key string
 					if v.Ep >= 0 && v.Ep < int64(ret) {
-						key, err = strconv.Unquote(s[v.Iv-1 : ret])
-						if err != nil {
-							return
+						var ok bool
+						if key, ok = json.Unquote(s[v.Iv-1 : ret]); !ok {
+							return ret, errSyntax(s, int(v.Ep))
 						}
 					} else {
 						key = s[v.Iv : ret-1]
